@@ -46,7 +46,7 @@ PROOF_UNIT = {
     'Proofs/C09_Poly1305.v': 'poly1305', 'Proofs/C09_ChaCha.v': 'chacha', 'Proofs/C09_ChaChaPoly.v': 'chacha20_poly1305',
     'Proofs/C09_KDF.v': 'HKDF_expand/P_hash/PRF', 'Proofs/C09_KeyCalc.v': 'calc_key/HKDF_expand_label', 'Proofs/C09_Modes.v': 'python_rc4/CBC spec',
     'Proofs/C09_CBC.v': 'python_aes CBC', 'Proofs/C09_CTR.v': 'python_aes CTR', 'Proofs/C09_GCM.v': 'aesgcm/python_aes CTR',
-    'Proofs/C09_Bits32.v': 'chacha', 'Proofs/C09_Lists.v': 'library', 'Props/C09.v': 'statements',
+    'Proofs/C09_Bits32.v': 'chacha', 'Proofs/C09_GF128.v': 'aesgcm _mul/__init__ table', 'Proofs/C09_Lists.v': 'library', 'Props/C09.v': 'statements',
 }
 
 
